@@ -64,6 +64,15 @@ type c11Chain struct {
 	params   tmproto.EvidenceParams
 	prefix   map[uint64]string // 48-bit prefix -> full bytes (collision check)
 	bad      string
+	outside  []types.MockPV // keys that are never validators of the chain
+}
+
+// c11Cfg: shape of a generated chain.  The zero value is the chain of the pool histories (7 keys,
+// 3..4 validators, commits with at most one absent signature); mixed chains (light client attack
+// families, verif_c11_lca_test.go) have more validators and commits mixing signatures for the
+// block, precommits for nil and absent slots (always more than 2/3 for the block).
+type c11Cfg struct {
+	mixed bool
 }
 
 func (c *c11Chain) id(b []byte) uint64 {
@@ -98,14 +107,31 @@ func (c *c11Chain) signVote(pv types.MockPV, v *types.Vote, chainID string) {
 
 func (c *c11Chain) mkCommit(h int64, round int32, bid types.BlockID, vs *types.ValidatorSet,
 	absent func(i int) bool, ts time.Time) *types.Commit {
+	return c.mkCommitFlags(h, round, bid, vs, func(i int) types.BlockIDFlag {
+		if absent != nil && absent(i) {
+			return types.BlockIDFlagAbsent
+		}
+		return types.BlockIDFlagCommit
+	}, ts)
+}
+
+// a commit of the validator set vs: slot i is a genuine signature for bid, a genuine precommit
+// for nil, or absent, as flagOf says
+func (c *c11Chain) mkCommitFlags(h int64, round int32, bid types.BlockID, vs *types.ValidatorSet,
+	flagOf func(i int) types.BlockIDFlag, ts time.Time) *types.Commit {
 	sigs := make([]types.CommitSig, vs.Size())
 	for i, v := range vs.Validators {
-		if absent != nil && absent(i) {
+		fl := flagOf(i)
+		if fl == types.BlockIDFlagAbsent {
 			sigs[i] = types.NewCommitSigAbsent()
 			continue
 		}
 		pv := c.pvByAddr[string(v.Address)]
-		vote := &types.Vote{Type: tmproto.PrecommitType, Height: h, Round: round, BlockID: bid,
+		vbid := bid
+		if fl == types.BlockIDFlagNil {
+			vbid = types.BlockID{}
+		}
+		vote := &types.Vote{Type: tmproto.PrecommitType, Height: h, Round: round, BlockID: vbid,
 			Timestamp: ts, ValidatorAddress: v.Address, ValidatorIndex: int32(i)}
 		c.signVote(pv, vote, c11ChainID)
 		sigs[i] = vote.CommitSig()
@@ -113,19 +139,59 @@ func (c *c11Chain) mkCommit(h int64, round int32, bid types.BlockID, vs *types.V
 	return types.NewCommit(h, round, bid, sigs)
 }
 
-func c11NewChain(r *vg.Rand, tag uint64) *c11Chain {
+// flags for a commit of vs: random mix, repaired until more than 2/3 of the power is for the block
+func c11MixedFlags(r *vg.Rand, vs *types.ValidatorSet) []types.BlockIDFlag {
+	fl := make([]types.BlockIDFlag, vs.Size())
+	for i := range fl {
+		switch x := r.Intn(100); {
+		case x < 60:
+			fl[i] = types.BlockIDFlagCommit
+		case x < 82:
+			fl[i] = types.BlockIDFlagNil
+		default:
+			fl[i] = types.BlockIDFlagAbsent
+		}
+	}
+	for {
+		var pw int64
+		for i, v := range vs.Validators {
+			if fl[i] == types.BlockIDFlagCommit {
+				pw += v.VotingPower
+			}
+		}
+		if pw > vs.TotalVotingPower()*2/3 {
+			return fl
+		}
+		var cand []int
+		for i := range fl {
+			if fl[i] != types.BlockIDFlagCommit {
+				cand = append(cand, i)
+			}
+		}
+		fl[cand[r.Intn(len(cand))]] = types.BlockIDFlagCommit
+	}
+}
+
+func c11NewChain(r *vg.Rand, tag uint64) *c11Chain { return c11NewChainCfg(r, tag, c11Cfg{}) }
+
+func c11NewChainCfg(r *vg.Rand, tag uint64, cfg c11Cfg) *c11Chain {
+	npv, nvMin, nvSpan, pool := 7, 3, 2, 5
+	if cfg.mixed {
+		npv, nvMin, nvSpan, pool = 10, 4, 3, 8
+	}
 	c := &c11Chain{r: r, pvByAddr: map[string]types.MockPV{}, vals: map[int64]*types.ValidatorSet{},
 		times: map[int64]time.Time{}, headers: map[int64]*types.Header{}, blockIDs: map[int64]types.BlockID{},
 		commits: map[int64]*types.Commit{}, rounds: map[int64]int32{}, states: map[int64]sm.State{},
 		prefix: map[uint64]string{}}
 	c.n = int64(9 + r.Intn(5))
-	for i := 0; i < 7; i++ {
+	for i := 0; i < npv; i++ {
 		pv := types.NewMockPVWithParams(ed25519.GenPrivKeyFromSecret([]byte(fmt.Sprintf("c11-%d-%d", tag, i))), false, false)
 		c.pvs = append(c.pvs, pv)
 		c.pvByAddr[string(pv.PrivKey.PubKey().Address())] = pv
 	}
+	c.outside = c.pvs[pool:]
 	// validator sets with churn for heights 1..n+2
-	nv := 3 + r.Intn(2)
+	nv := nvMin + r.Intn(nvSpan)
 	cur := []*types.Validator{}
 	for i := 0; i < nv; i++ {
 		cur = append(cur, types.NewValidator(c.pvs[i].PrivKey.PubKey(), int64(5+r.Intn(10))))
@@ -145,7 +211,7 @@ func c11NewChain(r *vg.Rand, tag uint64) *c11Chain {
 				cur = append(cur[:i:i], cur[i+1:]...)
 			default:
 				var free []types.MockPV
-				for _, pv := range c.pvs[:5] {
+				for _, pv := range c.pvs[:pool] {
 					in := false
 					for _, v := range cur {
 						if bytes.Equal(v.Address, pv.PrivKey.PubKey().Address()) {
@@ -196,8 +262,14 @@ func c11NewChain(r *vg.Rand, tag uint64) *c11Chain {
 		c.headers[h] = &hdr
 		c.blockIDs[h] = bid
 		c.rounds[h] = int32(r.Intn(2))
-		ab := r.Intn(c.vals[h].Size() + 2) // one absent signature in most commits
-		commit := c.mkCommit(h, c.rounds[h], bid, c.vals[h], func(i int) bool { return i == ab }, c.times[h])
+		var commit *types.Commit
+		if cfg.mixed {
+			fl := c11MixedFlags(r, c.vals[h])
+			commit = c.mkCommitFlags(h, c.rounds[h], bid, c.vals[h], func(i int) types.BlockIDFlag { return fl[i] }, c.times[h])
+		} else {
+			ab := r.Intn(c.vals[h].Size() + 2) // one absent signature in most commits
+			commit = c.mkCommit(h, c.rounds[h], bid, c.vals[h], func(i int) bool { return i == ab }, c.times[h])
+		}
 		c.commits[h] = commit
 		c.bs.SaveBlock(block, ps, commit)
 		lastCommit, lastID = commit, bid
@@ -264,7 +336,7 @@ func (c *c11Chain) chainTerm() string {
 		if commit != nil {
 			round = int64(commit.Round)
 			for _, s := range commit.Signatures {
-				ab = append(ab, vg.B(s.Absent()))
+				ab = append(ab, vg.Z(int64(s.BlockIDFlag)))
 			}
 		}
 		xs = append(xs, vg.Tup(vg.Z(h), vg.Z(c.ns(meta.Header.Time)), vg.N(c.id(meta.Header.Hash())),
@@ -314,8 +386,8 @@ func (c *c11Chain) evTerm(ev types.Evidence) string {
 	case *types.LightClientAttackEvidence:
 		cb := e.ConflictingBlock
 		var sigs []string
-		for _, s := range cb.Commit.Signatures {
-			sigs = append(sigs, vg.Tup(vg.Z(int64(s.BlockIDFlag)), vg.N(c.id(s.ValidatorAddress))))
+		for i, s := range cb.Commit.Signatures {
+			sigs = append(sigs, vg.Tup(vg.Z(int64(s.BlockIDFlag)), vg.N(c.id(s.ValidatorAddress)), vg.B(c11SlotGenuine(cb, i))))
 		}
 		byz := "None"
 		if e.ByzantineValidators != nil {
@@ -326,12 +398,185 @@ func (c *c11Chain) evTerm(ev types.Evidence) string {
 			trusting = cv.VerifyCommitLightTrusting(c11ChainID, cb.Commit, light.DefaultTrustLevel) == nil
 		}
 		lightOK = cb.ValidatorSet.VerifyCommitLight(c11ChainID, cb.Commit.BlockID, cb.Height, cb.Commit) == nil
+		var ab []string
+		for _, a := range e.ABCI() {
+			ab = append(ab, vg.Tup(vg.Z(int64(a.Type)), vg.N(c.id(a.Validator.Address)), vg.Z(a.Validator.Power),
+				vg.Z(a.Height), vg.Z(c.ns(a.Time)), vg.Z(a.TotalVotingPower)))
+		}
 		return vg.App("TLca", vg.N(c.id(e.Hash())), vg.Z(c11WireSize(e)), vg.Z(e.CommonHeight), vg.Z(cb.Height),
 			vg.Z(c.ns(cb.Time)), vg.N(c.id(cb.Hash())), c.five(cb.Header), vg.Z(int64(cb.Commit.Round)),
 			vg.L(sigs), c.valsTerm(cb.ValidatorSet.Validators), byz, vg.Z(e.TotalVotingPower),
-			vg.Z(c.ns(e.Timestamp)), vg.B(trusting), vg.B(lightOK), vg.B(cb.ValidateBasic(c11ChainID) == nil))
+			vg.Z(c.ns(e.Timestamp)), vg.B(trusting), vg.B(lightOK), vg.B(cb.ValidateBasic(c11ChainID) == nil),
+			vg.L(ab), vg.B(c.listsSpecified(e)))
 	}
 	panic("c11: unknown evidence type")
+}
+
+// ---------------------------------------------------------------- the specification, in Go
+//
+// Who is byzantine in a light client attack - written from
+// spec/light-client/attacks/isolate-attackers_002_reviewed.md [LCAI-FUNC-MAIN.1], NOT by calling
+// LightClientAttackEvidence.GetByzantineValidators (the Coq side checks this transcription against
+// coq/C11/Spec.v on every evidence: observable 32).
+
+// slot i of the conflicting commit carries the address of validator i of the conflicting set
+// and a signature that verifies under its key
+func c11SlotGenuine(cb *types.LightBlock, i int) bool {
+	s := cb.Commit.Signatures[i]
+	if s.Absent() || cb.ValidatorSet == nil || i >= cb.ValidatorSet.Size() {
+		return false
+	}
+	v := cb.ValidatorSet.Validators[i]
+	if !bytes.Equal(v.Address, s.ValidatorAddress) {
+		return false
+	}
+	return v.PubKey.VerifySignature(cb.Commit.VoteSignBytes(c11ChainID, int32(i)), s.Signature)
+}
+
+// the block of ours the conflicting block is compared with (height, header, commit)
+func (c *c11Chain) reference(e *types.LightClientAttackEvidence) (int64, *types.Header, *types.Commit) {
+	k := e.ConflictingBlock.Height
+	if k >= 1 && k <= c.n {
+		if cm := c.bs.LoadBlockCommit(k); cm != nil {
+			return k, c.headers[k], cm
+		}
+	}
+	if k == e.CommonHeight {
+		return 0, nil, nil
+	}
+	top := c.bs.Height()
+	cm := c.bs.LoadBlockCommit(top)
+	if cm == nil || c.headers[top] == nil || e.ConflictingBlock.Time.After(c.headers[top].Time) {
+		return 0, nil, nil
+	}
+	return top, c.headers[top], cm
+}
+
+func c11DerivedDiffer(a, b *types.Header) bool {
+	return !bytes.Equal(a.ValidatorsHash, b.ValidatorsHash) || !bytes.Equal(a.NextValidatorsHash, b.NextValidatorsHash) ||
+		!bytes.Equal(a.ConsensusHash, b.ConsensusHash) || !bytes.Equal(a.AppHash, b.AppHash) ||
+		!bytes.Equal(a.LastResultsHash, b.LastResultsHash)
+}
+
+// attack kind and the specified list of byzantine validators (members of the validator set of
+// the evidence's height, ordered by power then address); ok=false: no block to compare with
+func (c *c11Chain) specByz(e *types.LightClientAttackEvidence) (kind string, out []*types.Validator, ok bool) {
+	if e.CommonHeight < 1 || e.CommonHeight > c.n {
+		return "", nil, false
+	}
+	common := c.vals[e.CommonHeight]
+	th, ref, refCommit := c.reference(e)
+	if ref == nil {
+		return "", nil, false
+	}
+	cb := e.ConflictingBlock
+	signedConf := map[string]bool{}
+	for i, s := range cb.Commit.Signatures {
+		if s.BlockIDFlag == types.BlockIDFlagCommit && c11SlotGenuine(cb, i) {
+			signedConf[string(s.ValidatorAddress)] = true
+		}
+	}
+	switch {
+	case c11DerivedDiffer(ref, cb.Header):
+		kind = "lunatic"
+		for _, v := range common.Validators {
+			if signedConf[string(v.Address)] {
+				out = append(out, v)
+			}
+		}
+	case refCommit.Round == cb.Commit.Round:
+		kind = "equivocation"
+		signedRef := map[string]bool{}
+		for i, v := range c.vals[th].Validators {
+			if i < len(refCommit.Signatures) && refCommit.Signatures[i].BlockIDFlag == types.BlockIDFlagCommit {
+				signedRef[string(v.Address)] = true
+			}
+		}
+		for _, v := range common.Validators {
+			if signedConf[string(v.Address)] && signedRef[string(v.Address)] {
+				out = append(out, v)
+			}
+		}
+	default:
+		kind = "amnesia"
+	}
+	sort.Slice(out, func(i, j int) bool {
+		if out[i].VotingPower != out[j].VotingPower {
+			return out[i].VotingPower > out[j].VotingPower
+		}
+		return bytes.Compare(out[i].Address, out[j].Address) < 0
+	})
+	return kind, out, true
+}
+
+// human-readable content of a light client attack evidence for the replay description:
+// validators are written <first two address bytes>/<power>
+func (c *c11Chain) describeLca(ev types.Evidence) string {
+	e, ok := ev.(*types.LightClientAttackEvidence)
+	if !ok {
+		return ""
+	}
+	short := func(a []byte) string {
+		if len(a) < 2 {
+			return "-"
+		}
+		return fmt.Sprintf("%X", a[:2])
+	}
+	vl := func(vs []*types.Validator) string {
+		var xs []string
+		for _, v := range vs {
+			if v == nil {
+				xs = append(xs, "nil")
+				continue
+			}
+			xs = append(xs, fmt.Sprintf("%s/%d", short(v.Address), v.VotingPower))
+		}
+		return "[" + strings.Join(xs, " ") + "]"
+	}
+	cb := e.ConflictingBlock
+	var slots []string
+	for i, s := range cb.Commit.Signatures {
+		f := map[types.BlockIDFlag]string{types.BlockIDFlagAbsent: "absent", types.BlockIDFlagCommit: "for-block", types.BlockIDFlagNil: "nil"}[s.BlockIDFlag]
+		if !s.Absent() && !c11SlotGenuine(cb, i) {
+			f += "(forged)"
+		}
+		slots = append(slots, short(s.ValidatorAddress)+":"+f)
+	}
+	var cvs []*types.Validator
+	if e.CommonHeight >= 1 && e.CommonHeight <= c.n {
+		cvs = c.vals[e.CommonHeight].Validators
+	}
+	ref := "none"
+	if th, _, cm := c.reference(e); cm != nil {
+		var fs []string
+		for _, s := range cm.Signatures {
+			fs = append(fs, map[types.BlockIDFlag]string{types.BlockIDFlagAbsent: "absent", types.BlockIDFlagCommit: "for-block", types.BlockIDFlagNil: "nil"}[s.BlockIDFlag])
+		}
+		ref = fmt.Sprintf("height %d round %d %v", th, cm.Round, fs)
+	}
+	kind, sp, _ := c.specByz(e)
+	nilness := ""
+	if e.ByzantineValidators != nil && len(e.ByzantineValidators) == 0 {
+		nilness = "(non-nil)"
+	}
+	return fmt.Sprintf("; conflicting block height %d round %d, validators %s, commit slots %v; validators of height %d %s; our commit: %s; %s; ByzantineValidators %s%s, TotalVotingPower %d; specified %s",
+		cb.Height, cb.Commit.Round, vl(cb.ValidatorSet.Validators), slots, e.CommonHeight, vl(cvs), ref, kind,
+		vl(e.ByzantineValidators), nilness, e.TotalVotingPower, vl(sp))
+}
+
+// the evidence lists exactly the specified validators and the total power of its height's set
+func (c *c11Chain) listsSpecified(e *types.LightClientAttackEvidence) bool {
+	_, sp, ok := c.specByz(e)
+	if !ok || len(sp) != len(e.ByzantineValidators) || e.TotalVotingPower != c.vals[e.CommonHeight].TotalVotingPower() {
+		return false
+	}
+	for i, v := range sp {
+		w := e.ByzantineValidators[i]
+		if w == nil || !bytes.Equal(v.Address, w.Address) || v.VotingPower != w.VotingPower {
+			return false
+		}
+	}
+	return true
 }
 
 // ---------------------------------------------------------------- evidence generation
@@ -855,7 +1100,7 @@ func c11RunCase(cs *vg.Cases, id int, kind string, c *c11Chain, l0 int64, tbl []
 	for i, e := range d.tbl {
 		tt = append(tt, c.evTerm(e.ev))
 		vbs = append(vbs, vg.B(e.ev.ValidateBasic() == nil))
-		kinds = append(kinds, fmt.Sprintf("ev%d=%s(h%d)", i, e.kind, e.ev.Height()))
+		kinds = append(kinds, fmt.Sprintf("ev%d=%s(h%d%s)", i, e.kind, e.ev.Height(), c.describeLca(e.ev)))
 		cs.Count("evidence:"+e.kind, 1)
 	}
 	if c.bad != "" {
